@@ -625,7 +625,7 @@ pub fn main() {
         return;
     }
     let mut ck = Check::new("C24", "exploration");
-    ck.rule("One case = a scratch repository driven by a git command script decoded from the tape: index.version 2/4 (3 arises from extended flags), index.threads 1..8 with IEOT/EOIE on or off, untracked cache + status, optional split index or sparse index, 0..300 paths sharing long prefixes (real files with chosen mtimes, symlinks, index-only entries, gitlinks, odd bytes), intent-to-add / skip-worktree / assume-unchanged, write-tree then partial invalidation, names of 0xffe..17000 bytes, conflict stages and their resolution (REUC). The index is checked after every step. Non-trivial: some snapshot is v4 with an IEOT of >= 2 blocks, or carries >= 2 extension kinds. Distinct by script hash.");
+    ck.rule("One case = a scratch repository driven by a git command script decoded from the tape: index.version 2/4 (3 arises from extended flags), index.threads 1..8 with IEOT/EOIE on or off, untracked cache + status (untracked files, .gitignore in the root and in random directories), optional split index or sparse index, 0..300 paths sharing long prefixes (real files with chosen mtimes, symlinks, index-only entries, gitlinks, odd bytes), intent-to-add / skip-worktree / assume-unchanged, write-tree then partial invalidation, names of 0xffe..17000 bytes, conflict stages and their resolution (REUC). The index is checked after every step. Non-trivial: some snapshot is v4 with an IEOT of >= 2 blocks, or carries >= 2 extension kinds. Distinct by script hash.");
     ck.assume(&format!("{} writes the indices and is the reference for the independent reader (ls-files --stage --debug -z, --resolve-undo, write-tree/ls-tree for cache-tree ids)", Git::version()));
     ck.assume("gix-index exposes no accessor for the contents of the UNTR, REUC and FSMN extensions: only their presence (and the number of REUC paths) can be compared; cache-tree children are compared as a name-keyed set because gix-index re-sorts them");
     ck.assume("index.skipHash is not known to git 2.39 and is covered by C25 only");
